@@ -356,9 +356,9 @@ pub fn spec() -> PropSpec {
             "sessions: Acknowledgements and session-generated timestamps are masked (functions of call boundaries / of the clock by definition, see C17); an Err from handle_input is terminal",
         ],
         checks: vec![
-            PropCheck::new("deserializer-valid", |_| deser_case(false), 6_000, 200_000, eval),
-            PropCheck::new("deserializer-mutated", |_| deser_case(true), 8_000, 300_000, eval),
-            PropCheck::new("sessions", |_| session_case(), 5_000, 200_000, eval_session),
+            PropCheck::new("deserializer-valid", |_| deser_case(false), 40_000, 1_000_000, eval),
+            PropCheck::new("deserializer-mutated", |_| deser_case(true), 50_000, 1_500_000, eval),
+            PropCheck::new("sessions", |_| session_case(), 15_000, 500_000, eval_session),
         ],
     }
 }
